@@ -5,6 +5,7 @@ import (
 	"errors"
 	"fmt"
 	"io"
+	"strings"
 
 	"github.com/ulikunitz/xz"
 	"github.com/ulikunitz/xz/lzma"
@@ -133,7 +134,82 @@ func c09Input(writer string) []byte {
 }
 
 // c09Writer runs the history {Write, Write, [Flush], Close, Close} on a fault-injecting sink.
+// c09Hist runs an enumerated call history "H|<writer>|op,op,..." (ops: wS small text, wR 3000
+// random bytes, wT 5000 bytes text, f Flush, c Close) on a fault-injecting sink.
+func c09Hist(p C09W) c09Run {
+	parts := strings.Split(p.Writer, "|")
+	kind, ops := parts[1], strings.Split(parts[2], ",")
+	res := c09Run{failCall: -1}
+	fs := &faultSink{failAt: p.FailAt, forever: p.Forever, half: p.Half}
+	rec := func(call string, n, l int, err error) {
+		if fs.failed && res.failCall < 0 {
+			res.failCall = len(res.calls)
+		}
+		res.calls = append(res.calls, callRes{Call: call, N: n, Len: l, Err: err, Sink: len(fs.buf)})
+	}
+	payload := func(op string, i int) []byte {
+		switch op {
+		case "wS":
+			return baseText[i*7 : i*7+40]
+		case "wR":
+			return randBytes(20+i, 3000)
+		}
+		return textBytes(20+i, 5000)
+	}
+	res.pan = core.Guard(func() {
+		var w interface {
+			Write([]byte) (int, error)
+			Close() error
+		}
+		var flush func() error
+		switch kind {
+		case "lzma2":
+			res.fmt = "lzma2"
+			lw, err := lzma.Writer2Config{DictCap: 4096}.NewWriter2(fs)
+			rec("NewWriter2", 0, 0, err)
+			if err != nil {
+				return
+			}
+			w, flush = lw, lw.Flush
+		case "xz":
+			res.fmt = "xz"
+			xw, err := xz.WriterConfig{DictCap: 4096, BlockSize: 4000, CheckSum: xz.CRC32}.NewWriter(fs)
+			rec("NewWriter", 0, 0, err)
+			if err != nil {
+				return
+			}
+			w = xw
+		}
+		closes := 0
+		for i, op := range ops {
+			switch op {
+			case "f":
+				if flush != nil {
+					rec("Flush", 0, 0, flush())
+				}
+			case "c":
+				closes++
+				if closes == 1 {
+					rec("Close", 0, 0, w.Close())
+				} else {
+					rec("Close2", 0, 0, w.Close())
+				}
+			default:
+				q := payload(op, i)
+				res.input = append(res.input, q...)
+				n, err := w.Write(q)
+				rec("Write", n, len(q), err)
+			}
+		}
+	})
+	res.sink, res.offs, res.failed = fs.buf, fs.offs, fs.failed
+	return res
+}
+
 func c09Writer(r *core.Run, p C09W) c09Run {
+	if strings.HasPrefix(p.Writer, "H|") {
+		return c09Hist(p)
+	}
 	in := c09Input(p.Writer)
 	res := c09Run{input: in}
 	var fs *faultSink
@@ -263,7 +339,11 @@ func c09WriterJudge(r *core.Run, p C09W, base c09Run) {
 	if p.Half {
 		mode += "+partial"
 	}
-	site := fmt.Sprintf("%s fail@%s mode=%s", p.Writer, what, mode)
+	wname := p.Writer
+	if strings.HasPrefix(wname, "H|") {
+		wname = "hist-" + strings.Split(wname, "|")[1]
+	}
+	site := fmt.Sprintf("%s fail@%s mode=%s", wname, what, mode)
 	desc := fmt.Sprintf("%s: sink call %d of %d fails (%s); history Write,Write,[Flush],Close,Close", p.Writer, p.FailAt, len(base.offs), mode)
 	var hist []string
 	reported := false
@@ -428,6 +508,52 @@ func runC09(r *core.Run) {
 			}
 		}
 	}
+	// enumerated call histories x every sink-call index x modes
+	hdepth := 2
+	if thorough(r) {
+		hdepth = 3
+	}
+	var hists []string
+	var hrec func(pref []string, alpha []string, kind string)
+	hrec = func(pref []string, alpha []string, kind string) {
+		if len(pref) > 0 {
+			hists = append(hists, "H|"+kind+"|"+strings.Join(pref, ",")+",c,c")
+		}
+		if len(pref) == hdepth {
+			return
+		}
+		for _, a := range alpha {
+			hrec(append(append([]string(nil), pref...), a), alpha, kind)
+		}
+	}
+	hrec(nil, []string{"wS", "wR", "wT", "f"}, "lzma2")
+	hrec(nil, []string{"wS", "wR", "wT"}, "xz")
+	nh := 0
+	for _, h := range hists {
+		base := c09Writer(r, C09W{Writer: h, FailAt: -1})
+		if base.pan != nil || base.failed {
+			panic("C09: fault-free history run failed: " + h)
+		}
+		out, err := c09Decode(base.fmt, base.sink)
+		if err != nil || !bytes.Equal(out, base.input) {
+			r.Violate(core.MkCase("C09", "writer", C09W{Writer: h, FailAt: -1}), "history fault-free run invalid", h, fmt.Sprint(err), "valid stream")
+			continue
+		}
+		b := base
+		for k := 0; k < len(base.offs); k++ {
+			for _, forever := range []bool{false, true} {
+				for _, half := range []bool{false, true} {
+					if half && forever && !thorough(r) {
+						continue
+					}
+					jobs = append(jobs, job{w: &C09W{Writer: h, FailAt: k, Forever: forever, Half: half}, base: &b})
+					nh++
+				}
+			}
+		}
+	}
+	r.Extra("enumerated_histories", len(hists))
+	r.Extra("history_fault_points", nh)
 	streams := readerStreams(level)
 	long := longStreams()
 	for i := range long {
